@@ -105,14 +105,16 @@ PLANS = {
                  'kernel.proof.ItemID.last', 'kernel.proof.ItemID.can_depend_on', 'kernel.proof.ItemID.__eq__',
                  'lemma:incr_injective', 'lemma:incr_keeps_length', 'lemma:incr_preserves_dep',
                  'lemma:decr_preserves_dep', 'lemma:decr_injective', 'lemma:dep_before'],
-        level='proof',
+        bounded=['bounded.c13_state.run'], level='proof',
         assumptions=COMMON_ASSUMPTIONS + [
             "only the identifier arithmetic behind add_line_before / remove_line / replace_id is under contract "
             "(renumbering = spec, injective, length preserving, preserves the dependency relation between surviving "
             "lines); three of the renumbering lemmas are discharged by enumeration of all sequence lengths <= 4 "
             "(reported as bounded_lemma_instances, not counted as proved)",
-            "NOT covered: the whole-state invariant of ProofState editing (re-check succeeds, export/import, copy "
-            "isolation) - needs a heap model of Proof/ProofItem objects",
+            "the whole-state invariant of ProofState editing (full re-check = stated goal, last line, contiguous "
+            "numbering, citations, no_gaps when finished, export/re-import, copy isolation) is covered ONLY by the "
+            "bounded stand-in bounded/c13_state.py (generated goals + recorded library steps, random perturbations, "
+            "every step on a copy first) - a deductive treatment needs a heap model of aliased Proof/ProofItem objects",
         ],
         trusted_base=['pyvc (this repository)', 'z3 5.1'],
     ),
@@ -130,6 +132,20 @@ PLANS = {
             "own trace checker); tseitin.encode is not covered yet",
         ],
         trusted_base=['pyvc (this repository)', 'z3 5.1'],
+    ),
+    'C08': dict(
+        specs=[], contracts=[], targets=[], bounded=['bounded.c08_infer.run'], level='exploration',
+        native_per_fn={'quick': 0, 'thorough': 0},
+        rule='see coverage.bounded[0].rule',
+        assumptions=[
+            "bounded stand-in only: type_infer is one function with five closures over shared mutable union-find / "
+            "reachability dictionaries mutating the input term in place; no contract within reach of the engine "
+            "expresses 'most general unifier'. Run-time contract on type_infer over generated skeletons, oracle = "
+            "kernel type checker + comparison with the original well-typed term",
+            "two occurrences of one name that the skeleton itself annotates with different types are treated as "
+            "two variables (the kernel identifies variables by name and type)",
+        ],
+        trusted_base=['kernel type checker (C01/C03 contracts)', 'own generator'],
     ),
     'C16': dict(
         specs=[], contracts=[], targets=[], bounded=['bounded.c16_linear.run'], level='exploration',
